@@ -214,7 +214,7 @@ class Gen:
                 base = self.pick_var(env, "T") or "A"
                 forms = ["[0]", "[1:3]", "[0:1]", "[::2]", "[1:]", "[:2]", "[-1]", "[2:0:-1]", "[:]"]
                 if len(shp) >= 2:
-                    forms += ["[:, 0]", "[0, 0]", "[0:1, 1]", "[1, 0:2]", "[:, 1:2]", "[:, :]"]
+                    forms += ["[:, 0]", "[0, 0]", "[0:1, 1]", "[1, 0:2]", "[:, 1:2]", "[:, :]", "[-1, 0]", "[1:, -1]", "[-1, -1]"]
                 self.p.features.add("subscript")
                 return f"op.ReduceSum({base}{rng.choice(forms)}, keepdims=0)"
             if len(shp) == 1 and shp[0] > 0 and rng.random() < 0.15:
@@ -1717,7 +1717,7 @@ def shrinking_nest_program(rng, name: str) -> dict:
 
 
 def sibling_subscript_program(rng, name: str) -> dict:
-    forms = ["[0:2]", "[1:3]", "[0:2, 1]", "[1, 0:2]", "[::2]", "[0]", "[1]", "[0:1, 0:2]", "[2:0:-1]", "[1:, 0]"]
+    forms = ["[0:2]", "[1:3]", "[0:2, 1]", "[1, 0:2]", "[::2]", "[0]", "[1]", "[0:1, 0:2]", "[2:0:-1]", "[1:, 0]", "[-1, 0]", "[1:, -1]"]
     f = lambda: rng.choice(forms)
     red = lambda e: f"op.ReduceSum({e}, keepdims=0)"
     body = ["acc = op.ReduceSum(A, keepdims=0)"]
